@@ -1282,6 +1282,12 @@ class Mps(MatrixProduct):
             if self.evolve_config.ivp_solver != "krylov":
                 coef = 1j
 
+        # the half sweeps start from the canonical centre, which has to sit at the end matching the direction
+        if mps.to_right:
+            mps.ensure_right_canonical()
+        else:
+            mps.ensure_left_canonical()
+
         # construct the environment matrix
         # almost half is not used. Not a big deal.
         environ = Environ(mps, mpo)
@@ -1420,6 +1426,12 @@ class Mps(MatrixProduct):
             mps = self.to_complex()
             if self.evolve_config.ivp_solver != "krylov":
                 coef = 1j
+
+        # the half sweeps start from the canonical centre, which has to sit at the end matching the direction
+        if mps.to_right:
+            mps.ensure_right_canonical()
+        else:
+            mps.ensure_left_canonical()
 
         # construct the environment matrix
         # almost half is not used. Not a big deal.
